@@ -199,8 +199,18 @@ impl cucumber::Runner<RWorld> for RecRunner {
         features
             .filter_map(move |f| {
                 if let Ok(f) = &f {
+                    // scenarios are identified by their marker tag `id_<S>`
+                    // (their names need not be unique)
                     let names = |scs: &[gherkin::Scenario]| {
-                        scs.iter().map(|s| s.name.clone()).collect::<Vec<_>>()
+                        scs.iter()
+                            .map(|s| {
+                                s.tags
+                                    .iter()
+                                    .find_map(|t| t.strip_prefix("id_"))
+                                    .unwrap_or(&s.name)
+                                    .to_owned()
+                            })
+                            .collect::<Vec<_>>()
                     };
                     log.borrow_mut().push(json!({
                         "name": f.name, "tags": f.tags,
@@ -238,8 +248,28 @@ fn str_set(v: &Value) -> Vec<String> {
 /// C15: one vector through `Cucumber::filter_run`.
 pub fn filter_vector(specs: &[FeatureSpec], l: &Value) -> Value {
     let v = &l["vec"];
-    let features: Vec<gherkin::Feature> =
+    let mut features: Vec<gherkin::Feature> =
         specs.iter().map(FeatureSpec::build).collect();
+    // every scenario carries its id as a tag; with `dup` some scenarios of one
+    // feature / rule share their displayed name, as the rows of an outline do
+    let dup = v["dup"] == true;
+    let mark = |s: &mut gherkin::Scenario| {
+        s.tags.push(format!("id_{}", s.name));
+        if dup {
+            match s.name.as_str() {
+                "S2" => s.name = "S1".into(),
+                "S4" => s.name = "S3".into(),
+                "S7" => s.name = "S6".into(),
+                _ => {}
+            }
+        }
+    };
+    for f in &mut features {
+        f.scenarios.iter_mut().for_each(mark);
+        for r in &mut f.rules {
+            r.scenarios.iter_mut().for_each(mark);
+        }
+    }
     let log = Rc::new(RefCell::new(Vec::new()));
     let re_set = str_set(&v["reSet"]);
     let closure_set = str_set(&v["closure"]);
@@ -275,7 +305,12 @@ pub fn filter_vector(specs: &[FeatureSpec], l: &Value) -> Value {
         (),
         move |_: &gherkin::Feature,
               _: Option<&gherkin::Rule>,
-              s: &gherkin::Scenario| closure_set.contains(&s.name),
+              s: &gherkin::Scenario| {
+            s.tags
+                .iter()
+                .find_map(|t| t.strip_prefix("id_"))
+                .is_some_and(|id| closure_set.iter().any(|c| c == id))
+        },
     ));
     json!({"received": Value::Array(log.borrow().clone()), "expr_text": text})
 }
